@@ -318,6 +318,8 @@ class ModelWorld:
         seen = {}
         for ent_ops, oi, idx, val in self.table.get(name, []):
             if val is not None and self._match(ent_ops, flat):
+                if oi >= len(res) or len(idx) != res[oi].ndim or any(i >= n for i, n in zip(idx, res[oi].shape)):
+                    continue    # same uf name and operands applied with another output shape (e.g. one key drawn for vectors of two sizes)
                 prev = seen.get((oi, idx))
                 if prev is not None and not (abs(float(prev) - float(val)) <= 1e-6 * (1 + abs(float(val)))):
                     # two applications whose operands differ only at rounding level but whose model values differ:
